@@ -50,12 +50,19 @@ class Form:
         self.fid, self.sels, self.container, self.exts, self.trailing = fid, sels, container, exts, trailing
         # sels: [(field, mut)], container: index into CONTAINERS, exts: [(kind index, lenclass)], trailing: number of trailing commas
 
+    def en(self, k):
+        """name of the k-th external variable: in every third form the externals are named like fields of the struct (the
+        selected ones first) - a local of the caller that is spelled like a field must still be the caller's local"""
+        if self.fid % 3 != 0: return f"e{k}"
+        cands = list(dict.fromkeys([f for f, _ in self.sels] + ["a", "b", "c", "d"]))
+        return cands[k] if k < len(cands) else f"e{k}"
+
     def invocation(self):
         c = CONTAINERS[self.container]
         sel = ", ".join(("mut " if m else "") + f for f, m in self.sels)
         parts = [c[2], f"[{sel}]"]
         for k, (ek, _) in enumerate(self.exts):
-            parts.append(EXTERNALS[ek][1].format(e=f"e{k}", b=1000 * (k + 1)))
+            parts.append(EXTERNALS[ek][1].format(e=self.en(k), b=1000 * (k + 1)))
         return "soa_zip!(" + ", ".join(parts) + "," * self.trailing + ")"
 
     def desc(self):
@@ -100,10 +107,10 @@ class Form:
             ty = EXTERNALS[ek][2]
             body.append(f"let t{j}: {ty} = t{j};")
             shows.append(f"format!(\"{{}}\", {'*' if ty.startswith('&') else ''}t{j})")
-            oracle_parts.append(f"format!(\"{{}}\", e{k}[i])")
+            oracle_parts.append(f"format!(\"{{}}\", {self.en(k)}[i])")
         ext_decl = "\n".join(
-            f"        let e{k}: Vec<i32> = (0..{EXT_LEN[l]}).map(|i| {1000 * (k + 1)} + i as i32).collect();" for k, (_, l) in enumerate(self.exts))
-        min_terms = ["wl"] + [f"e{k}.len()" for k in range(len(self.exts))]
+            f"        let {self.en(k)}: Vec<i32> = (0..{EXT_LEN[l]}).map(|i| {1000 * (k + 1)} + i as i32).collect();" for k, (_, l) in enumerate(self.exts))
+        min_terms = ["wl"] + [f"{self.en(k)}.len()" for k in range(len(self.exts))]
         oracle_writes = []
         for f, m in self.sels:
             if not m: continue
